@@ -27,7 +27,75 @@ def generate(tier, seed):
     for k in range(n):
         cases.append({"kind": ("cutout", "chimera", "twins")[k % 3], "relabel": KINDS[(k // 3) % 3],
                       "seed": "%d:c:%d" % (seed, k), "cost": 14})
+    # a histidine hydrogen-bonded to an amide oxygen, the two residues in different chains, and a shift that
+    # reverses which of them carries the larger residue number (pair treatment must not follow the numbers)
+    for k in range(8 if tier == "quick" else 160):
+        cases.append({"kind": "his-amide", "relabel": "shift", "index": k, "seed": "%d:ha:%d" % (seed, k), "cost": 30})
     return cases
+
+
+HIS_ACID_SITES = (("1FTJ-Chain-A.pdb", "A", 46, "A", 42), ("3SGB.pdb", "E", 57, "E", 102),
+                  ("4DFR.pdb", "A", 141, "A", 139), ("4DFR.pdb", "B", 141, "B", 139))
+
+
+def his_amide_case(case, rng, classes):
+    """(original records, relabelled records, description) for a his-amide case."""
+    import math
+    from .. import pdbio, sources
+    name, hc, hn, ac, an = HIS_ACID_SITES[case["index"] % len(HIS_ACID_SITES)]
+    full = [r for r in sources.full_protein(name) if r.raw is not None or r.alt in (" ", "A")]
+    rl = sources.residue_list(full)
+    centre = next(i for i, r in enumerate(rl) if r.key[0] == "ATOM  " and r.key[1] == hc and r.key[2] == hn)
+    recs, _ = sources.cutout(full, rng, rng.choice((10, 12, 14)), center=centre)
+    recs = [r for r in recs if r.raw is not None or r.tag == "ATOM  "]
+    his = [a for a in recs if a.raw is None and a.chain == hc and a.resnum == hn and a.aname() in ("ND1", "NE2")]
+    out = []
+    lo, hi = min(hn, an), max(hn, an)
+    cut = rng.randrange(lo + 1, hi + 1)              # residues >= cut of that chain move to chain Q
+    for r in recs:
+        if r.raw is None:
+            r = r.copy()
+            r.alt = " "
+            if r.chain == ac and r.resnum == an and r.resn in ("ASP", "GLU"):
+                ox = [a for a in recs if a.raw is None and a.chain == ac and a.resnum == an and a.aname() in ("OD1", "OD2", "OE1", "OE2")]
+                near = min(ox, key=lambda o: min(math.dist((o.x, o.y, o.z), (h.x, h.y, h.z)) for h in his)) if ox and his else None
+                new = "ASN" if r.resn == "ASP" else "GLN"
+                if r.aname() in ("OD1", "OD2", "OE1", "OE2") and near is not None:
+                    if r.akey() == near.akey():
+                        r.name = " OD1" if new == "ASN" else " OE1"
+                    else:
+                        r.name = " ND2" if new == "ASN" else " NE2"
+                        if len(r.tail) >= 24:
+                            r.tail = r.tail[:22] + " N" + r.tail[24:]
+                r.resn = new
+            if r.chain == hc and r.resnum >= cut:
+                r.chain = "Q"
+        out.append(r)
+    # TER records where the chain identifier changes
+    recs2, prev = [], None
+    for r in out:
+        if r.raw is not None:
+            continue
+        if prev is not None and r.chain != prev:
+            recs2.append(pdbio.raw("TER"))
+        recs2.append(r)
+        prev = r.chain
+    # the shift: chain Q gets numbers below every number of the other chains (or above, if it was below)
+    nq = [r.resnum for r in recs2 if r.raw is None and r.chain == "Q"]
+    no = [r.resnum for r in recs2 if r.raw is None and r.chain != "Q"]
+    if not nq or not no:
+        return None, None, None
+    sh = (min(no) - 5 - max(nq)) if rng.random() < 0.7 else rng.choice((-40, 37, min(no) - max(nq) - 200))
+    if min(nq) + sh < -999 or max(nq) + sh > 9999:
+        sh = min(no) - 5 - max(nq)
+    new = []
+    for r in recs2:
+        if r.raw is None and r.chain == "Q":
+            r = r.copy()
+            r.resnum += sh
+        new.append(r)
+    classes.append("his-amide-pair-across-chains")
+    return recs2, new, {"shift": {"Q": sh}, "crosses_zero": min(nq) + sh <= 0 < min(nq), "site": "%s %s%d/%s%d" % (name, hc, hn, ac, an)}
 
 
 def setup(tier):
@@ -74,6 +142,61 @@ def make_twins(recs, rng):
             out.extend(a.copy() for a in res.atoms)
         prev = res
     return out, n
+
+
+def split_chains(recs, rng, classes):
+    """Cut the protein chains of a real structure into 2-3 chains each (new identifiers, TER in between),
+    so that residues in contact - hydrogen-bonded pairs of every kind - sit in different chains and the
+    relabelling can change which of the two carries the larger number. 30 % of the time an ASP/GLU next
+    to a HIS ring is written as ASN/GLN (an amide partner for the histidine)."""
+    import math
+    from .. import pdbio, sources
+    rl = sources.residue_list(recs)
+    used = {r.chain for r in recs if r.raw is None}
+    pool = [c for c in "GHJKLMNOPQRSTUVW" if c not in used]
+    rng.shuffle(pool)
+    if rng.random() < 0.3:
+        his = [a for r in rl if r.key[4] == "HIS" for a in r.atoms if a.aname() in ("ND1", "NE2")]
+        for r in rl:
+            if r.key[0] == "ATOM  " and r.key[4] in ("ASP", "GLU"):
+                ox = [a for a in r.atoms if a.aname() in ("OD1", "OD2", "OE1", "OE2")]
+                if len(ox) == 2 and any(math.dist((o.x, o.y, o.z), (h.x, h.y, h.z)) < 3500 for o in ox for h in his):
+                    new = "ASN" if r.key[4] == "ASP" else "GLN"
+                    far = max(ox, key=lambda o: min(math.dist((o.x, o.y, o.z), (h.x, h.y, h.z)) for h in his))
+                    for k, a in enumerate(r.atoms):
+                        a = a.copy()
+                        a.resn = new
+                        if a is not None and r.atoms[k] is far:
+                            a.name = " ND2" if new == "ASN" else " NE2"
+                            if len(a.tail) >= 24:
+                                a.tail = a.tail[:22] + " N" + a.tail[24:]
+                        elif r.atoms[k] in ox:
+                            a.name = " OD1" if new == "ASN" else " OE1"
+                        r.atoms[k] = a
+                    r.key = r.key[:4] + (new,)
+                    classes.append("his-amide-pair-made")
+                    break
+    out = []
+    cur_old, cur_new, count = None, None, 0
+    for r in rl:
+        if r.key[0] != "ATOM  ":
+            out.extend(r.atoms)
+            continue
+        if r.key[1] != cur_old or r.ter_before:
+            cur_old, cur_new, count = r.key[1], r.key[1], 0
+            if out and r.ter_before:
+                out.append(pdbio.raw("TER"))
+        elif count >= 3 and pool and rng.random() < 0.12:
+            out.append(pdbio.raw("TER"))
+            cur_new, count = pool.pop(), 0
+        for a in r.atoms:
+            if cur_new != a.chain:
+                a = a.copy()
+                a.chain = cur_new
+            out.append(a)
+        count += 1
+    classes.append("chains-split")
+    return out
 
 
 def relabel(recs, kind, rng):
@@ -188,7 +311,13 @@ def run_case(case, tier):
     rng = random.Random(case["seed"])
     viol, counts, classes = [], {}, []
     kind = case["relabel"]
-    if case["kind"] == "file":
+    preset = None
+    if case["kind"] == "his-amide":
+        recs, new_, rdesc_ = his_amide_case(case, rng, classes)
+        if recs is None:
+            return util.finish(case, viol, counts, classes, False, {"skipped": "site not in the cut-out"}, inconclusive="no site")
+        preset = (new_, rdesc_)
+    elif case["kind"] == "file":
         recs = sources.full_protein(case["file"])
     elif case["kind"] == "cutout":
         recs = sources.random_small_structure(rng, 80, 900)
@@ -197,6 +326,8 @@ def run_case(case, tier):
     else:
         base = sources.random_small_structure(rng, 80, 700) if rng.random() < 0.6 else sources.chimera(rng, allow_blank=True)[0]
         recs, ntw = make_twins(base, rng)
+    if case["kind"] in ("cutout", "twins") and rng.random() < 0.35:
+        recs = split_chains(recs, rng, classes)
     if case["kind"] != "file" and rng.random() < 0.25:
         # two copies of one ligand in two chains, under different residue numbers
         from .. import fragments
@@ -213,7 +344,7 @@ def run_case(case, tier):
     if not sources.identities_unique(recs):
         return util.finish(case, viol, counts, classes, False, {"skipped": "two residues share one identity"},
                            inconclusive="ill-formed")
-    new, rdesc = relabel(recs, kind, rng)
+    new, rdesc = preset if preset else relabel(recs, kind, rng)
     # a relabelling must keep the field limits
     if any(r.raw is None and not (-999 <= r.resnum <= 9999) for r in new):
         return util.finish(case, viol, counts, classes, False, {"skipped": "number out of field"}, inconclusive="field")
@@ -226,6 +357,19 @@ def run_case(case, tier):
         pick = rng.choice(ids)
         opts, opts_b = opts + ["-c", pick], opts_b + ["-c", rdesc.get("map", {}).get(pick, pick)]
         classes.append("with-chain-selection")
+    if "-c" not in opts and rng.random() < 0.15:
+        # a titrate-only list naming the same residues under their old and their new labels
+        a_at, b_at = pdbio.atoms(recs), pdbio.atoms(new)
+        if len(a_at) == len(b_at):
+            m_ = {}
+            for x, y in zip(a_at, b_at):
+                m_[(x.chain, x.resnum, x.icode)] = (y.chain, y.resnum, y.icode)
+            cand = [k_ for k_ in util.titratable_residues(recs) if k_ in m_ and k_[0] != " " and m_[k_][0] != " "]
+            if cand:
+                pick = rng.sample(cand, min(len(cand), rng.choice((1, 2, 4))))
+                opts = opts + ["-i", ",".join(util.res_arg(k_) for k_ in pick)]
+                opts_b = opts_b + ["-i", ",".join(util.res_arg(m_[k_]) for k_ in pick)]
+                classes.append("with-titrate-only-list")
     ra = obs.run_single(ta, opts)
     rb = obs.run_single(tb, opts_b)
     counts["pipeline_runs"] = 2
